@@ -1,18 +1,18 @@
 \* generated by gen_cfgs.py
 CONSTANTS
   Mode = "fac"
-  Depth = 2
-  RootOps = {"fmap_init_err"}
+  Depth = 1
+  RootOps = {"fleaf", "fand_then", "fmap", "fmap_err", "fmap_init_err", "fmap_config", "funit_config", "fapply_fn", "fboxed", "fapply_cfg", "fapply_cfg_factory", "ftransform"}
   RK = {0, 1}
   RR = {"ok", "err"}
   CK = {0}
-  CR = {"ok"}
-  FK = {0, 1}
+  CR = {"ok", "err"}
+  FK = {0, 1, 2}
   FR = {"ok", "err"}
-  Kinds = {"cfg", "nocfg"}
+  Kinds = {"cfg"}
   Reqs = {"a"}
   Cfgs = {"k"}
-  Emit = TRUE
+  Emit = FALSE
   AndThenCallsBOnErr = FALSE
   AndThenReadyShortCircuit = FALSE
   MapAppliedToErr = FALSE
@@ -20,12 +20,9 @@ CONSTANTS
   FactoryBuildsTwice = FALSE
   FirstInitErrorSwallowed = FALSE
   RepollAfterComplete = FALSE
-  AndThenFactorySequential = FALSE
+  AndThenFactorySequential = TRUE
 SPECIFICATION Spec
 INVARIANTS
   I_C11_ResultIsEval I_C11_SecondOnlyAfterFirstOk I_C11_MapperOnceOnMatchingVariant I_C11_WrappersTransparent
   I_C11_FactoryBuildsEachOnceWithCfg I_C11_FirstInitErrorWins C11_BuiltIsReference
-  I_C12_ReadyIsConjunction I_C12_ReadyErrPropagates I_C12_PendingPolledAllWithCurrentWaker
-  I_C12_NoPollAfterCompletion I_C12_NoStageTwice I_C12_PendingOnlyWhileInnerPending C12_Terminates
-  EmitVec
 CHECK_DEADLOCK FALSE
